@@ -182,10 +182,11 @@ type HTTPCase struct {
 	Up        bool   `json:"upload_schema,omitempty"`
 	Exp       Expect `json:"exp"`
 	Note      string `json:"note,omitempty"`
+	Ops       []ROp  `json:"reader_ops,omitempty"` // part g: reader script the resolver runs on every upload
 }
 
 func (c *HTTPCase) key() string {
-	return fmt.Sprintf("%s|%s|%s|%s|%v|%d|%d|%s|%s", c.Endpoint, c.CType, c.Accept, c.Target, c.ChunkedCL, c.MaxUpload, c.MaxMem, c.RawReq, c.Body)
+	return fmt.Sprintf("%s|%s|%s|%s|%v|%d|%d|%s|%s|%v", c.Endpoint, c.CType, c.Accept, c.Target, c.ChunkedCL, c.MaxUpload, c.MaxMem, c.RawReq, c.Body, c.Ops)
 }
 
 // Obs is what the harness observed.
@@ -263,6 +264,7 @@ func (r *rig) run(c *HTTPCase, checkTmp bool) Obs {
 	} else if c.Up {
 		srv = r.upServer(c.MaxUpload, c.MaxMem)
 		r.up.Reset()
+		r.up.Ops = c.Ops
 	} else {
 		r.hs.Log.Reset()
 	}
@@ -555,7 +557,11 @@ func judge(c *HTTPCase, o *Obs) []Failure {
 			add("wrong-data", "data %s, expected %s", clip(first.Data, 120), c.Exp.Data)
 		}
 		if c.Up {
-			fs = append(fs, compareUploads(c.Exp.Uploads, o.Seen, true)...)
+			if c.Ops != nil {
+				fs = append(fs, compareTraces(c, o.Seen)...)
+			} else {
+				fs = append(fs, compareUploads(c.Exp.Uploads, o.Seen, true)...)
+			}
 		}
 	case "any":
 		if c.Up {
@@ -625,3 +631,53 @@ func compareUploads(exp []ExpUpload, seen []SeenUpload, exact bool) []Failure {
 
 var _ = url.QueryEscape
 var _ graphql.Upload
+
+// compareTraces: part (g). Every delivered reader must behave like bytes.Reader over the
+// file's bytes for the scripted operations: same n / position, same error class, same bytes.
+// One leniency, allowed by the io.Reader contract: Read with an empty buffer at or past the
+// end may return (0, nil) or (0, io.EOF).
+func compareTraces(c *HTTPCase, seen []SeenUpload) []Failure {
+	var fs []Failure
+	add := func(format string, a ...any) {
+		fs = append(fs, Failure{"reader-mismatch", fmt.Sprintf(format, a...)})
+	}
+	exp := c.Exp.Uploads
+	if len(exp) != len(seen) {
+		add("resolver saw %d uploads, expected %d", len(seen), len(exp))
+		return fs
+	}
+	for j, e := range exp {
+		s := seen[j]
+		if s.ArgPath != e.ArgPath || s.Filename != e.Filename || s.ContentType != e.ContentType || s.Size != int64(len(e.Content)) {
+			add("upload %d: %s %q %q size %d, expected %s %q %q size %d", j, s.ArgPath, s.Filename, s.ContentType, s.Size, e.ArgPath, e.Filename, e.ContentType, len(e.Content))
+			continue
+		}
+		if s.Err != "" {
+			add("%s: %s", s.ArgPath, s.Err)
+		}
+		ops := opsFor(c.Ops, j)
+		if len(s.Trace) != len(ops) {
+			add("%s: %d of %d operations recorded", s.ArgPath, len(s.Trace), len(ops))
+			continue
+		}
+		ref := bytes.NewReader(e.Content)
+		for k, op := range ops {
+			atEnd := ref.Len() == 0
+			want := applyOp(ref, op)
+			got := s.Trace[k]
+			if op.Kind == "read" && op.N == 0 && atEnd && got.N == 0 && (got.Err == "nil" || got.Err == "EOF") {
+				continue
+			}
+			if got.N != want.N || got.Err != want.Err || !bytes.Equal(got.Data, want.Data) {
+				var hist []string
+				for _, h := range ops[:k+1] {
+					hist = append(hist, h.String())
+				}
+				add("%s (reader %d of %d): after %s got (n=%d, err=%s, %q), bytes.Reader gives (n=%d, err=%s, %q)", s.ArgPath, j+1, len(exp),
+					strings.Join(hist, "; "), got.N, got.Err, clip(string(got.Data), 20), want.N, want.Err, clip(string(want.Data), 20))
+				break
+			}
+		}
+	}
+	return fs
+}
